@@ -120,11 +120,11 @@ def check_server_responses(plan, obs, complete):
                 probs.append('server: request %d got no response' % i)
             continue
         head, _, body = raw.partition('\r\n\r\n')
-        if not head.startswith('HTTP/1.0 200'):
+        if not (head.startswith('HTTP/1.0 200') or head.startswith('HTTP/1.1 200')):
             probs.append('server: request %d: %r' % (i, head[:40]))
             continue
         try:
-            doc = json.loads(body)
+            doc = json.loads(body.encode('latin-1').decode('utf-8'))
         except ValueError:
             probs.append('server: body of response %d is not JSON' % i)
             continue
